@@ -7,9 +7,9 @@ from vlib import log
 
 # property -> exhaustive configurations (quick, thorough)
 FAMS = {
-    "C01": (["order", "gates"], ["order", "gates", "tolerance", "cont"]),
+    "C01": (["order", "gates", "crashfn"], ["order", "gates", "tolerance", "cont", "crash", "crashfn", "crash2fn"]),
     "C02": (["tolerance", "order"], ["tolerance", "order", "big"]),
-    "C03": (["tolerance"], ["tolerance", "big", "cont"]),
+    "C03": (["tolerance", "crashfn"], ["tolerance", "big", "cont", "crash", "crashfn"]),
     "C04": (["tolerance", "gates", "contq"], ["tolerance", "gates", "cont", "order", "big", "live"]),
     "C05": (["retry"], ["retry", "retrychk"]),
     "C06": (["gates"], ["gates", "gates2"]),
